@@ -1,5 +1,6 @@
 import Model.Train
 import Proofs.Chunks
+import Props.C13
 
 /-!
 # C04 — training is ordered mini-batch gradient-sum descent
@@ -124,6 +125,36 @@ theorem epochStep_spec (inputs targets : List (Tensor α)) (B : Nat) (script : L
     simp only [Except.ok.injEq] at h
     subst h
     exact ⟨n, lossEpoch, hrun, rfl, rfl⟩
+
+/-! ### the whole run -/
+
+/-- **training for `E` epochs** (no validation data, so nothing can stop the run early): `learn` is exactly the walk
+    `epochStep 1, epochStep 2, …, epochStep E` — epoch `e` is one `epochStep` with step number `e` (`epochStep_spec`: its
+    groups in order, one optimizer step per group on the group's gradient sum at the weights held before the step) started
+    from the result of epoch `e − 1`; the first starts from the given network with the training flags on and an empty
+    loss history, and the flags are cleared at the end.  Hence one training-loss entry per epoch, `E` in all. -/
+theorem learn_is_the_epoch_walk (n : Network α) (inputs targets : List (Tensor α)) (B E : Nat) (script : List α)
+    (res : LearnResult α) (h : n.learn inputs targets none B E script = .ok res) :
+    0 < B ∧ ∃ r, C13.runK (epochStep inputs targets none B script) E 1
+        { net := n.setAllTraining true, trainLoss := [], valLoss := [], valAcc := [] } = .ok r ∧
+      res = { r with net := r.net.setAllTraining false } ∧ res.trainLoss.length = E := by
+  unfold learn at h
+  split at h
+  · simp at h
+  · rename_i hB
+    simp only [] at h
+    split at h
+    · simp at h
+    · rename_i r hr
+      simp only [Except.ok.injEq] at h
+      subst h
+      unfold learnLoop at hr
+      have hstop : stopAfter (none : Option (List (Tensor α) × List (Tensor α) × Nat)) = fun _ _ => .ok false := by
+        funext e r'; rfl
+      rw [hstop, C13.epochLoop_never_stops] at hr
+      refine ⟨Nat.pos_of_ne_zero hB, r, hr, rfl, ?_⟩
+      obtain ⟨l1, _, _⟩ := C13.runK_lengths inputs targets none B script E 1 _ r hr
+      simpa using l1
 
 /-! non-vacuity: 5 samples in groups of 2 → [2, 2, 1] -/
 example : L.chunks 2 [1, 2, 3, 4, 5] = [[1, 2], [3, 4], [5]] := by decide
